@@ -2,9 +2,10 @@ import Std.Data.HashMap
 import Driver.Util
 import Driver.C16
 import Driver.C09
+import Driver.C10
 open Driver
 
-def allEntries : List Entry := Driver.C16.entries ++ Driver.C09.entries
+def allEntries : List Entry := Driver.C16.entries ++ Driver.C09.entries ++ Driver.C10.entries
 
 def table : Std.HashMap String Handler :=
   allEntries.foldl (fun m e => m.insert (e.kind ++ " " ++ e.op) e.run) {}
